@@ -121,7 +121,11 @@ CHECKS = {
             'independently stated rule Agree holds (selected columns present in both frames with types agreeing at the '
             'level, no selected extra column, same relative order, same row count, selected values equal); types_match '
             'is the documented relation of the three levels, reflexive, symmetric and monotone in the level; a copy '
-            'passes; a changed row count, dropped / renamed / added / retyped / moved column or a value difference fails. '
+            'passes; a changed row count, dropped / renamed / added / retyped / moved column or a value difference fails; '
+            'rounding to p decimals (half to even, on exact values) moves a value by at most half a unit, leaves grid '
+            'values alone, makes values within half a unit of the same grid point equal, and two values more than one '
+            'unit apart never compare equal (changing a checked value by more than the precision always fails); nulls '
+            'equal only nulls. '
             'The model is tied to the code on all pairs of 18 dtype names x levels and, through spied reporters, on the '
             'structure lists and the verdict of every generated pair of frames; value equality after rounding enters the '
             'model as a parameter and is recomputed cell by cell (on the precision grid) by the oracle through '
